@@ -28,6 +28,8 @@ def _through_repackaging(b, t, o, depth):
     h = fx.callee_fn(t)
     if h is None or h.get("is_async") or h["kind"] not in ("fn", "assoc_fn"):
         return None
+    if h["def"] in birth_fns(fx):
+        return None  # where an event loop (and with it the address of a new actor) comes into being: a root of its own
     hb = Body(h)
     if not o.proj:
         # a constructor that merely wraps its parameter (`Entry::new(addr) = Entry(Box::new(addr))`)
@@ -40,13 +42,21 @@ def _through_repackaging(b, t, o, depth):
         for x in hr:
             out |= roots(b, t["args"][x.site - 1], depth + 1)
         return out
-    lits = [st for _b2, _s2, st in agg_sites(hb) if st["p"] == [0] and st["r"].get("ak") in ("adt", "tuple")]
-    if len(lits) != 1 or len([1 for _b3, t3 in hb.normal_calls() if not (t3.get("callee") or "").startswith(("core::", "log::", "std::"))]) > 0:
+    lits = [st for _b2, _s2, st in list(agg_sites(hb)) + list(agg_sites(hb, ak="tuple")) if st["p"] == [0]]
+    if len(lits) != 1:
         return None
     fld = o.proj[0]
     if not (fld.startswith("f") and fld[1:].isdigit()) or int(fld[1:]) >= len(lits[0]["r"]["ops"]):
         return None
-    ho = hb.origins(lits[0]["r"]["ops"][int(fld[1:])])
+    fop = lits[0]["r"]["ops"][int(fld[1:])]
+    rest = [e for e in o.proj[1:] if isinstance(e, str) and not e.startswith("<part:")]
+    if rest and fop.get("k") in ("copy", "move"):
+        # a field of the field (`create_loop(..).0.actor`): follow it into the literal the helper built
+        fop = dict(fop, p=list(fop["p"]) + rest)
+    plain = len([1 for _b3, t3 in hb.normal_calls() if not (t3.get("callee") or "").startswith(("core::", "log::", "std::"))]) == 0
+    # a helper that itself calls helpers (`(event_loop.run(), addr)` with `addr` from `into_event_loop(..)`): what matters is
+    # that this field, followed through them, is nothing but the helper's own parameters
+    ho = hb.origins(fop) if plain else roots(hb, fop, depth + 1)
     if not ho or not all(x.kind == "arg" and x.site - 1 < len(t["args"]) for x in ho):
         return None
     out = set()
@@ -58,6 +68,21 @@ def _through_repackaging(b, t, o, depth):
     return out
 
 
+def birth_fns(fx):
+    """functions that create an event loop and hand out its future and the address created with it: the constructors of
+    the loops, functions in front of them that merely pass the actor on (`create_loop` before `EventLoop::run`), helpers
+    that return such a pair unchanged, launch helpers"""
+    cache = fx.__dict__.setdefault("_birth_fns", {})
+    if "v" not in cache:
+        cache["v"] = set()  # while it is being computed (roots is used to compute it) nothing is a birth
+        import loops
+        v = {f["parent"] for f, _k in loops.find_loops(fx)}
+        v |= set(graph.forwarding_closure(fx, loops.maker_params(fx, "actor"), roots, lambda g_: Body(g_)))
+        v |= set(loops.pair_helpers(fx)) | set(loops.launch_helpers(fx))
+        cache["v"] = v
+    return cache["v"]
+
+
 def roots(b, operand, depth=0):
     """origins with identity-preserving calls expanded"""
     out = set()
@@ -65,7 +90,7 @@ def roots(b, operand, depth=0):
         if o.kind == "call" and depth < 6:
             t = b.call_at(o)
             c = t.get("callee") or ""
-            if (c.endswith(IDENTITY_SUFFIX) or (c.startswith("alloc::boxed::") and c.endswith("::new"))) and t["args"]:
+            if (c.endswith(IDENTITY_SUFFIX) or (c.startswith("alloc::boxed::") and c.endswith(("::new", "::pin")))) and t["args"]:
                 for a in (t["args"][:1] if c.endswith(FIRST_ARG_ONLY) else t["args"][:2]):
                     out |= roots(b, a, depth + 1)
                 continue
@@ -73,7 +98,7 @@ def roots(b, operand, depth=0):
             if rep is not None:
                 out |= rep
                 continue
-            out.add(Origin("call:" + c, o.site, ()))
+            out.add(Origin("call:" + c, o.site, tuple(e for e in o.proj[:1] if str(e).startswith("<part:"))))  # (a part of the asked value only)
         elif o.kind == "agg" and depth < 6:
             # a closure literal (the upgrade / downgrade closure): what it captures
             st = b.blocks[o.site[0]]["s"][o.site[1]]
@@ -115,11 +140,18 @@ def check_forcing_never_refuses(ctx, fx, cfg, rule):
     ctx.floor(rule, "bounded forcing closures (%s)" % cfg, n, 1)
 
 
+def _birth_ctor(g, t):
+    return g.get("vis") != "pub" and g["kind"] in ("fn", "assoc_fn") and ("addr::Addr<" in (g.get("output") or "") or "context::Context<" in (g.get("output") or ""))
+
+
 def check_birth(ctx, fx, cfg, RULE="R15.3"):
     """the birth site wires the address and the context to the same channel halves and the same id"""
     fc = fx.fn("environment::Environment::<A, R>::from_channel")
     if ctx.require(fc is not None, RULE, "from_channel@" + cfg, "Environment::from_channel not found"):
-        b = ctx.body(fx, fc)
+        # crate-private constructors of the two values (`Context::new(&channel, rx)`, `ctx.address_from(tx, force_tx)`) are
+        # looked at as if their struct literal were written here
+        import inline
+        b = inline.body(ctx, fx, fc, _birth_ctor)
         ok = True
         det = {}
         for bi, blk in enumerate(b.blocks):
@@ -232,8 +264,7 @@ def check_cfg(ctx, fx, cfg):
         ctx.require(not missing, "R15.1", inst, "%s does not keep alive what the context and weak handles need: missing strong Arc<dyn %s>" % (k, ", ".join(missing)), fn=k, site=fx.adts[k]["loc"], detail={"owns": sorted(have)})
     # R15.2 handle-building sites
     import loops
-    births = {"call:" + f["parent"] for f, _k in loops.find_loops(fx)}  # create_loop / create_loop_on_stream hand out the address created at birth
-    births |= {"call:" + h for h in loops.pair_helpers(fx)}  # helpers that hand that pair on unchanged
+    births = {"call:" + d_ for d_ in birth_fns(fx)}  # create_loop / create_loop_on_stream (and what forwards to them) hand out the address created at birth
     # ... and so do the crate's spawn entry points (they return the address of the loop they spawned)
     import nfa as _nfa
     for g, _bi, _t in graph.all_calls(fx, _nfa.trait_method("actor::spawner::Spawner", "spawn_actor")):
